@@ -543,15 +543,19 @@ Definition mod_default (c : ctx) (v : val) (a : list val) : ctx * (option val) *
            end
        end.
 
+(* ownArg: a bytes argument is copied to a bufBB slot of the context *)
+Definition own_arg (c : ctx) (x : val) : ctx :=
+  match x with VBytes _ => w_lenBB c (S (lenBB c)) | _ => c end.
+
 Definition mod_ifthen (c : ctx) (v : val) (a : list val) : ctx * (option val) * option err :=
   match a with
   | [] => (c, None, Some EModNoArgs)
-  | x :: _ => if check_true c v then (c, Some x, None) else (c, None, None)
+  | x :: _ => if check_true c v then (own_arg c x, Some x, None) else (c, None, None)
   end.
 
 Definition mod_ifthenelse (c : ctx) (v : val) (a : list val) : ctx * (option val) * option err :=
   match a with
-  | x :: y :: _ => if check_true c v then (c, Some x, None) else (c, Some y, None)
+  | x :: y :: _ => if check_true c v then (own_arg c x, Some x, None) else (own_arg c y, Some y, None)
   | _ => (c, None, Some EModPoorArgs)
   end.
 
